@@ -231,14 +231,15 @@ accesses to the counter field in the body of `NewThreadID`:
 def isAccess (t : String) : Bool :=
   t = "read" || t = "inc" || t = "aload" || t = "aadd-unused" || t = "aadd-used" || t = "write"
 
-/-- one critical section: `lock`, then only plain reads/increments (at least one of each, the
-    first access a read), then `unlock`; nothing before or after touches the counter -/
+/-- one critical section: `lock`, then only plain reads/increments (at least one of each, in any
+    order: the id may be the value before or after the increment), then `unlock`; nothing before
+    or after touches the counter -/
 def oneSection (ts : List String) : Bool :=
   match ts.dropWhile (fun t => !isAccess t && t != "lock") with
   | "lock" :: rest =>
     let inside := rest.takeWhile (· != "unlock")
     let after := rest.dropWhile (· != "unlock")
-    inside.all (fun t => t = "read" || t = "inc") && inside.head? = some "read" && inside.contains "inc" &&
+    inside.all (fun t => t = "read" || t = "inc") && inside.contains "read" && inside.contains "inc" &&
       after.head? = some "unlock" && !(after.any isAccess) &&
       !((ts.takeWhile (· != "lock")).any isAccess)
   | _ => false
